@@ -20,11 +20,16 @@ FIXED = [
     (["C13", "C06", "C01"], "panic@src/version/zerv/vars.rs", "cbd1768", "non-ASCII commit hash crossing byte 8 panicked (h[..8])"),
     (["C13", "C07"], "panic@src/version/semver/to_zerv.rs", "4919ed8", "render '1.0.0-post.x.post.1' / '1.0.0-post.post.post' / '1.0.0-dev.x.dev.1' panicked (expect in From<SemVer> for Zerv)"),
     (["C07", "C06", "C03"], "u32-narrowing-in-render", "4101289", "render 5000000000.1.2 -> '1.2.0-5000000000' (SemVer side: component values parsed as u32)"),
+    (["C05"], "bump-overflow-wraps", "afc7b0d", "--tag-version 18446744073709551615.0.0 --bump-major wrapped to 0 in release builds (panicked in debug)"),
+    (["C04"], "flow-wildcard-without-slash", "f2baf7c", "branch 'releasex/3' / 'release-3' matched rule 'release/*' and got rc.3"),
     (["C07"], "u32-narrowing-in-render-pep440", "369acaa", "render 1.0.0-alpha.5000000000 --output-format pep440 -> '1.0.0a0'; post/dev/epoch above u32 vanished; 5000000000.1.2 -> '1.2+5000000000'"),
 ]
 
 KNOWN = [
     # (property, key, what)   -- genuine defects recorded instead of repaired
+    ("C04", "flow-hash-len10-overflow",
+     "zerv flow --hash-branch-len 10 fails for every branch whose 10-digit hash exceeds 2^32-1 (e.g. branches a, d, dev, master): "
+     "'Failed to parse NNNNNNNNNN: number too large to fit in target type' - the documented length 10 does not work for ~57% of branch names"),
 ]
 
 
